@@ -207,6 +207,14 @@ def walk(xml):
     return out
 
 
+_AR_WORD = re.compile("^[\u0600-\u06ff\u0750-\u077f\ufb50-\ufdff\ufe70-\ufeff]+$")
+
+
+def own_is_arabic_line(text):
+    """a line is Arabic-script if one of its words consists of characters of the Arabic Unicode blocks only"""
+    return any(_AR_WORD.match(w) for w in text.split())
+
+
 def body_page(ctx, case):
     from pero_ocr.core.layout import PageLayout
     from pero_ocr.core.arabic_helper import ArabicHelper
@@ -233,7 +241,8 @@ def body_page(ctx, case):
             if not t or t.strip() == "":
                 continue
             words = t.split()
-            arab = ah.is_arabic_line(t)
+            arab = own_is_arabic_line(t)       # not the library's own predicate
+            ctx.check(ah.is_arabic_line(t) == arab, "arabic_line_predicate", lambda: "is_arabic_line(%r) = %r" % (t, not arab))
             if arab:
                 words = [ah.label_form_to_string(w) for w in words]
             conf = wline.transcription_confidence
@@ -321,6 +330,12 @@ def body_order(ctx, s):
         ctx.check(sorted(r) == sorted(s), "order_conversion_changes_characters", lambda: "%s(%r) = %r" % (name, s, r))
         rr = ctx.must("order_conversion_raises", f, r)
         ctx.check(rr == s, "order_conversion_not_involution", lambda: "%s twice: %r -> %r -> %r" % (name, s, r, rr))
+    if len(s) >= 2 and all(c in ARABIC for c in s):
+        # a word of plain Arabic letters: label (visual) order and logical order are mirror images
+        for name in ("string_to_label_form", "label_form_to_string"):
+            r = getattr(ah, name)(s)
+            ctx.check(r == s[::-1], "arabic_word_not_mirrored", lambda: "%s(%r) = %r" % (name, s, r))
+        ctx.event("plain_arabic_word")
     has_ar = any(c in ARABIC for c in s)
     has_other = any(c.isascii() and c.isalnum() for c in s)
     if has_ar and has_other and len(s) >= 4:
